@@ -4,6 +4,7 @@ import (
 	"bufio"
 	"bytes"
 	"fmt"
+	"os"
 
 	"github.com/vulpemventures/go-elements/transaction"
 )
@@ -48,7 +49,88 @@ func readTx(t *Toks) *transaction.Transaction {
 		o.SurjectionProof = t.Hex()
 		tx.Outputs = append(tx.Outputs, o)
 	}
+	useTx(tx)
 	return tx
+}
+
+// useTx turns a freshly built transaction into a USED object before any check sees it: every read-only method is
+// called while the object is in a different state (each field class replaced in place, counts unchanged), then the
+// fields are put back in place. Whatever a method remembers inside the object (or in the package) from an earlier
+// state must not show in later results: the properties quantify over transactions, not over fresh objects.
+func useTx(tx *transaction.Transaction) {
+	if os.Getenv("VERIF_NO_USED_TX") != "" || len(tx.Inputs) > 24 || len(tx.Outputs) > 24 {
+		return
+	}
+	defer func() { _ = recover() }()
+	type savedIn struct {
+		in  transaction.TxInput
+		iss *transaction.TxIssuance
+	}
+	var sin []savedIn
+	for _, in := range tx.Inputs {
+		s := savedIn{in: *in}
+		if in.Issuance != nil {
+			c := *in.Issuance
+			s.iss = &c
+		}
+		sin = append(sin, s)
+	}
+	var sout []transaction.TxOutput
+	for _, o := range tx.Outputs {
+		sout = append(sout, *o)
+	}
+	ver, lt := tx.Version, tx.Locktime
+	restore := func() {
+		tx.Version, tx.Locktime = ver, lt
+		for i, in := range tx.Inputs {
+			iss := in.Issuance
+			*in = sin[i].in
+			if sin[i].iss != nil && iss != nil {
+				*iss = *sin[i].iss
+				in.Issuance = iss
+			}
+		}
+		for i, o := range tx.Outputs {
+			*o = sout[i]
+		}
+	}
+	defer restore()
+	tx.Version ^= 1
+	tx.Locktime ^= 1
+	for _, in := range tx.Inputs {
+		in.Sequence ^= 0x80000000
+		if len(in.Hash) > 0 {
+			in.Hash = flipLast(in.Hash)
+		}
+		in.Script = grow(in.Script)
+		if in.Issuance != nil && len(in.Issuance.AssetEntropy) > 0 {
+			in.Issuance.AssetEntropy = flipLast(in.Issuance.AssetEntropy)
+		}
+		in.IssuanceRangeProof = grow(in.IssuanceRangeProof)
+		in.Witness = append(append([][]byte{}, in.Witness...), []byte{7})
+	}
+	for _, o := range tx.Outputs {
+		if len(o.Value) > 0 {
+			o.Value = altValue(o.Value)
+		}
+		o.Script = grow(o.Script)
+		o.RangeProof = grow(o.RangeProof)
+		o.SurjectionProof = grow(o.SurjectionProof)
+	}
+	tx.TxHash()
+	tx.WitnessHash()
+	tx.HasWitness()
+	tx.SerializeSize(true, false)
+	tx.SerializeSize(false, false)
+	tx.Weight()
+	tx.VirtualSize()
+	tx.DiscountWeight()
+	tx.DiscountVirtualSize()
+	tx.Serialize()
+	if len(tx.Inputs) > 0 && wfTx(tx) {
+		tx.HashForSignature(0, []byte{0x51}, 1)
+		tx.HashForWitnessV0(0, []byte{0x51}, []byte{1, 0, 0, 0, 0, 0, 0, 0, 1}, 0x41)
+	}
 }
 
 func writeTx(b *sb, tx *transaction.Transaction) {
